@@ -45,6 +45,7 @@ CONSTANTS MaxLen, EMIT,
                        \* "nested" (lists of small objects; EVERY pair of well-formed diffs of the base, patch entries included)
           NIns,        \* nested: number of insertion choices per gap (2: none / one item; 3: two different items)
           NPatch,      \* nested: "few" (two replacing patches per item) | "all" (remove / replace / add per key)
+          NAtoms,      \* lists / objects: 3 atoms (1, 2, "x") or 4 (also true: for Python true == 1, for JSON it is not)
           StratMode    \* "none" (no strategies, no transients) | "few" | "all": the strategy configurations of StratU
 
 VARIABLES base, local, remote, ldv, rdv, D, merged, phase,
@@ -52,7 +53,7 @@ VARIABLES base, local, remote, ldv, rdv, D, merged, phase,
                        \*                              t: set of transient keys]
 vars == <<base, local, remote, ldv, rdv, D, merged, phase, st>>
 
-Atoms == {Int("1"), Int("2"), Str(<<120>>)}
+Atoms == {Int("1"), Int("2"), Str(<<120>>)} \cup (IF NAtoms = 4 THEN {Bool("true")} ELSE {})
 RECURSIVE SeqsUpTo(_, _)
 SeqsUpTo(S, n) == IF n = 0 THEN {<<>>}
                   ELSE LET P == SeqsUpTo(S, n - 1)
